@@ -2261,6 +2261,9 @@ func (vm *Thread) callNativeMethod(method *NativeMethod, argCount int) (err valu
 // set up the vm to execute a bytecode method with tail call optimisation
 func (vm *Thread) callBytecodeFunctionTCO(method *BytecodeFunction, argCount int) {
 	vm.populateMissingParametersOnStack(method.parameterCount, argCount)
+	// the frame is about to be reused: closures created by the caller
+	// keep the variables they captured
+	vm.opCloseUpvalues(vm.fp)
 
 	localCount := method.parameterCount + 1
 	for i := range localCount {
